@@ -214,12 +214,14 @@ func ruleNoSessionQerWithoutAll(w *World, r *Report, prop, rule string) {
 	for _, b := range f.Blocks {
 		for _, sc := range b.Succs {
 			x, op, y, ok := edgeFact(b, sc)
-			if !ok || op != token.EQL {
+			if !ok {
 				continue
 			}
 			k, isK := constInt(y)
 			lc, isLen := x.(*ssa.Call)
-			if !isK || k != 0 || !isLen || calleeName(lc) != "builtin.len" {
+			// len(x) == 0, written as == 0, < 1 or <= 0
+			empty := isK && ((op == token.EQL && k == 0) || (op == token.LSS && k == 1) || (op == token.LEQ && k == 0))
+			if !empty || !isLen || calleeName(lc) != "builtin.len" {
 				continue
 			}
 			ic, isCall := lc.Call.Args[0].(*ssa.Call)
@@ -758,7 +760,7 @@ func ruleSliceMeterExact(w *World, r *Report, prop, rule string) {
 			case *ssa.Convert:
 				walk(x.X)
 			case *ssa.Const:
-				if k, isK := constInt(x); isK && k != 9223372036854775807 {
+				if k, isK := constInt(x); isK && k != 9223372036854775807 && k != 0 {
 					badK = &k
 				}
 			}
